@@ -42,4 +42,8 @@ def run(repo, tier) -> Result:
     from .c19 import check_converters
 
     check_converters("C03", res, repo, rule="R-INPUT")
+    # which manager adopts the caller's candles and which collapses copies hangs on the manager's name / registry key
+    from ..framework_rules import check_regkey
+
+    check_regkey("C03", res, repo)
     return res
